@@ -78,7 +78,13 @@ class Keccak(object):
             assert self.r
             r = self.r
         else:
+            # a rate given with the call applies to this call only:
+            saved = self.r
             self.setrate(r)
+            try:
+                return self(M,bitlen)
+            finally:
+                self.setrate(saved)
 
         #Absorbing phase
         for Pi in self.iterblocks(M,bitlen):
